@@ -99,10 +99,11 @@ type TermCtx struct {
 	vars  []*Term
 	True  *Term
 	False *Term
+	varCache map[int32][]int32
 }
 
 func NewTermCtx() *TermCtx {
-	c := &TermCtx{tab: map[tkey]*Term{}}
+	c := &TermCtx{tab: map[tkey]*Term{}, varCache: map[int32][]int32{}}
 	c.True = c.mk(OConst, 0, 1, "", nil)
 	c.False = c.mk(OConst, 0, 0, "", nil)
 	return c
@@ -579,11 +580,105 @@ func (c *TermCtx) Cmp(op Op, a, b *Term) *Term {
 	}
 	return c.op(op, 0, 0, a, b)
 }
+type seg struct {
+	lo, w int
+	t     *Term // nil = zero bits
+}
+
+// segs decomposes t into ascending bit segments through concat / zero-extension / zero
+// constants, so that sums and ors of disjoint byte lanes can be rebuilt as one concat.
+func (c *TermCtx) segs(t *Term) []seg {
+	switch t.op {
+	case OConst:
+		if t.val == 0 {
+			return []seg{{0, int(t.w), nil}}
+		}
+	case OZExt:
+		in := c.segs(t.args[0])
+		return append(in, seg{int(t.args[0].w), int(t.w) - int(t.args[0].w), nil})
+	case OConcat:
+		lo := c.segs(t.args[1])
+		for _, s := range c.segs(t.args[0]) {
+			lo = append(lo, seg{s.lo + int(t.args[1].w), s.w, s.t})
+		}
+		return lo
+	}
+	return []seg{{0, int(t.w), t}}
+}
+
+// mergeDisjoint returns a|b (== a+b) as a single concat when the non-zero segments of a
+// and b do not overlap; nil otherwise.
+func (c *TermCtx) mergeDisjoint(a, b *Term) *Term {
+	sa, sb := c.segs(a), c.segs(b)
+	if len(sa) == 1 && sa[0].t != nil || len(sb) == 1 && sb[0].t != nil {
+		return nil
+	}
+	w := int(a.w)
+	cuts := map[int]bool{0: true, w: true}
+	for _, s := range sa {
+		cuts[s.lo] = true
+	}
+	for _, s := range sb {
+		cuts[s.lo] = true
+	}
+	bounds := make([]int, 0, len(cuts))
+	for k := range cuts {
+		bounds = append(bounds, k)
+	}
+	for i := 1; i < len(bounds); i++ {
+		for j := i; j > 0 && bounds[j] < bounds[j-1]; j-- {
+			bounds[j], bounds[j-1] = bounds[j-1], bounds[j]
+		}
+	}
+	piece := func(ss []seg, lo, hi int) (*Term, bool) { // term for bits [lo,hi) ; zero => nil,true
+		for _, s := range ss {
+			if lo >= s.lo && hi <= s.lo+s.w {
+				if s.t == nil {
+					return nil, true
+				}
+				return c.Extract(s.t, hi-1-s.lo, lo-s.lo), true
+			}
+		}
+		return nil, false
+	}
+	var res *Term
+	for i := 0; i+1 < len(bounds); i++ {
+		lo, hi := bounds[i], bounds[i+1]
+		pa, oka := piece(sa, lo, hi)
+		pb, okb := piece(sb, lo, hi)
+		if !oka || !okb {
+			return nil
+		}
+		var p *Term
+		switch {
+		case pa == nil && pb == nil:
+			p = c.Const(hi-lo, 0)
+		case pa == nil:
+			p = pb
+		case pb == nil:
+			p = pa
+		default:
+			return nil
+		}
+		if res == nil {
+			res = p
+		} else {
+			res = c.Concat(p, res)
+		}
+	}
+	return res
+}
+
 func (c *TermCtx) Bin(op Op, a, b *Term) *Term {
 	if a.w != b.w {
 		panic(fmt.Sprintf("bin %s width mismatch %d %d", opNames[op], a.w, b.w))
 	}
 	w := int(a.w)
+	if (op == OAdd || op == OBOr || op == OBXor) && a.op != OConst && b.op != OConst {
+		if m := c.mergeDisjoint(a, b); m != nil {
+			return m
+		}
+	}
 	switch op {
 	case OAdd:
 		if a.op == OConst && a.val == 0 {
